@@ -11,6 +11,10 @@ shape("report_xml_apply", "src/codemodder/codemods/xml_transformer.py", _C15,
       "report_xml_apply", "xml_apply_variant", "XmlDescOrNoneDiffGuard",
       ["XMLTransformer.add_change", "XMLTransformerPipeline.apply"],
       doc="XMLTransformer.add_change (description or None) + XMLTransformerPipeline.apply (guards in front of ChangeSet)")
+shape("report_regex_apply", "src/codemodder/codemods/regex_transformer.py", _C15,
+      "report_regex_apply", "regex_apply_variant", "RegexFailureHandled",
+      ["RegexTransformerPipeline._apply", "RegexTransformerPipeline.apply", "SastRegexTransformerPipeline._apply"],
+      doc="RegexTransformerPipeline.apply (failure handling, `if not changes`, no diff guard) + _apply (Change(lineno + 1, change_description))")
 shape("report_failure", "src/codemodder/file_context.py", _C15,
       "report_failure", "failure_variant", "FailureLineZero",
       ["FileContext.add_changeset", "FileContext.add_failure", "FileContext.add_unfixed_findings", "FileContext.get_all_findings"],
